@@ -37,6 +37,45 @@ def err(v):
     return ('adt', RESULT, 1, (v,))
 
 
+def whole_program(chk, facts, nf_, key, where, clabel, tname, kind, kname, inner_kind):
+    """Non-modular form of D2 / D3: on both the Student-t and the normal branch, the finite bounds of the wrapper are
+    exp / reciprocal (ends exchanged) of the finite bounds of the arithmetic producer run on the wrapped state with
+    the (flipped, for harmonic) kind."""
+    from ..producers import Producers
+    pr = Producers(facts)
+    which = tname.lower()
+    probs = []
+    try:
+        got = pr.mean_like(which, kind, L)
+        ref = pr.mean_like('arithmetic', inner_kind, L)
+        for below in (True, False):
+            br = 't' if below else 'normal'
+            gk, glo, ghi = got[below]
+            rk, rlo, rhi = ref[below]
+            if gk != kind:
+                probs.append('%s branch: result kind %s for %s confidence' % (br, gk, kname))
+                continue
+            if tname == 'Geometric':
+                wlo = T.op('exp', rlo) if not isinstance(rlo, int) else None
+                whi = T.op('exp', rhi) if not isinstance(rhi, int) else None
+            else:
+                one = ('op', 'one', ())
+                wlo = T.op('div', one, rhi) if not isinstance(rhi, int) else None
+                whi = T.op('div', one, rlo) if not isinstance(rlo, int) else None
+            for nm, g, w in (('lower', glo, wlo), ('upper', ghi, whi)):
+                if isinstance(g, int) and w is None:
+                    continue
+                if isinstance(g, int) or w is None:
+                    probs.append('%s branch: %s bound present on one side only' % (br, nm))
+                elif not pr.nf.term_equal(g, w):
+                    probs.append('%s branch: %s bound is %s, expected the back-transform %s' % (br, nm, T.show(g)[:110], T.show(w)[:110]))
+    except (Unsupported, NotReal) as e:
+        chk.ob(key, 'E4 whole-program', clabel, None, 'undecided: %s' % e, where)
+        return
+    chk.ob(key, 'E4 whole-program', '%s(%s) is the back-transform of the arithmetic interval of the wrapped state (inlined comparison; the wrapper does not call Arithmetic::ci_mean)' % (clabel, kname),
+           not probs, '; '.join(probs[:2]), where)
+
+
 def run(chk, ctx):
     for cfg in ctx.configs():
         run_cfg(chk, ctx.facts(cfg), cfg)
@@ -141,6 +180,13 @@ def run_cfg(chk, facts, cfg):
                     chk.ob(key, 'E3-regions', clabel, None, 'undecided: %s' % e, where)
                     continue
                 want_inner_kind = kind if tname == 'Geometric' else FLIP[kind]
+                if not any(e[0] == 'stub' for p_ in paths for e in p_.events):
+                    # the wrapper does not go through Arithmetic::ci_mean (an extracted helper, a shared kernel ...):
+                    # compare the fully inlined bounds with the back-transform of the fully inlined arithmetic bounds
+                    whole_program(chk, facts, nf, key, where, clabel, tname, kind, kname, want_inner_kind)
+                    if 'Ops' not in clabel:
+                        cnt['kinds'] += 1
+                    continue
                 rc = RegionCheck(chk, facts, key, where, '%s(%s) is the back-transform of the wrapped arithmetic interval' % (clabel, kname))
 
                 def stub_of(p):
